@@ -148,12 +148,52 @@ def _work(rng):
     agg = {'viol': {}, 'keys': set(), 'counters': collections.Counter(), 'cover': {}, 'timeouts': 0, 'n': 0}
     signal.signal(signal.SIGALRM, _alarm)
 
+    def run_forked(case):
+        """run one case in a child forked from this (clean) worker, so that nothing the case does to process-global state can
+        reach another case; the Result comes back through a pipe"""
+        import pickle
+        r, w = os.pipe()
+        pid = os.fork()
+        if pid == 0:
+            code = 0
+            try:
+                os.close(r)
+                try:
+                    out = chk.run(case)
+                    payload = ('ok', out.violations, out.keys, dict(out.counters), out.cover)
+                except BaseException as e:   # reported by the parent as a harness failure / timeout
+                    payload = ('exc', type(e).__name__, ''.join(traceback.format_exception(e))[-1500:], isinstance(e, CaseTimeout))
+                with os.fdopen(w, 'wb') as fh:
+                    pickle.dump(payload, fh)
+            except BaseException:
+                code = 1
+            finally:
+                os._exit(code)
+        os.close(w)
+        with os.fdopen(r, 'rb') as fh:
+            data = fh.read()
+        os.waitpid(pid, 0)
+        if not data:
+            raise RuntimeError('forked case produced no result')
+        payload = pickle.loads(data)
+        if payload[0] == 'exc':
+            if payload[3]:
+                raise CaseTimeout()
+            raise RuntimeError(f'{payload[1]} in forked case: {payload[2]}')
+        res = Result()
+        res.violations, res.keys = payload[1], payload[2]
+        res.counters.update(payload[3])
+        res.cover = payload[4]
+        return res
+
+    forked = bool(getattr(chk, 'fork_per_case', False))
+
     def one(case, order):
         res = None
         try:
             signal.setitimer(signal.ITIMER_REAL, getattr(chk, 'case_timeout', CASE_TIMEOUT))
             try:
-                res = chk.run(case)
+                res = run_forked(case) if forked else chk.run(case)
             finally:
                 signal.setitimer(signal.ITIMER_REAL, 0)
         except CaseTimeout:
